@@ -276,7 +276,17 @@ func runC26(w *World, r *Report) {
 
 				for _, f := range edgeFacts(ifi.Cond, true) {
 					if f.Kind == "true" && isFieldNamed(f.V, "Sandboxed") {
-						isFlag = true
+						// the flag of data.Parameter (data.Function has a flag of the same name with another meaning)
+						v := f.V
+						if u, ok := v.(*ssa.UnOp); ok {
+							v = u.X
+						}
+
+						if fa, ok := v.(*ssa.FieldAddr); ok {
+							if n := namedOf(fa.X.Type()); n != nil && n.Obj().Name() == "Parameter" {
+								isFlag = true
+							}
+						}
 					}
 				}
 
